@@ -144,7 +144,9 @@ def run(seed, tier, lean) -> Result:
             res.violations.append(Violation(what='driver rejected a case', fingerprint='C02:driver-error', replay={'spec': spec, 'inst': inst}, no_failing_input=True)); continue
         # a third of the cases: model built larger, one generation, extras removed through the API, then the generation
         # that is checked (what an earlier generation cached must not survive the removals)
-        v = check_case(spec, inst, mo, churn_seed=(seed * 1000003 + i) if i % 3 != 1 else None)
+        from ..common import guarded
+        done, v = guarded(res, check_case, spec, inst, mo, churn_seed=(seed * 1000003 + i) if i % 3 != 1 else None)
+        if not done: continue
         if v is not None and i % 3 != 1: v.replay['churn_seed'] = seed * 1000003 + i
         types = {a['type'] for a in inst['assets']}
         parents = {a['name']: a['superAsset'] for a in spec['assets']}
